@@ -346,6 +346,8 @@ def _start_record(node):
         "dry_run": params.get("dry_run"),
         "swarm": w.swarm_id if w is not None else None,
     }
+    for k in getattr(ENV.scn, "watch", ()):
+        rec["p_" + k] = params.get(k)
     return rec
 
 
